@@ -2005,13 +2005,31 @@ REJECT3 = [
 ]
 
 
+# ... and of the abstract backend / counters / cell unpacking (target B)
+_HBOX2 = {'name': 'H', 'lean_name': 'H', 'tparams': ['κ', 'ν', 'β'], 'deceq': ['κ'], 'inhabited': ['ν'],
+          'heap': {'field': 'heap', 'key': 'κ', 'val': 'ν'}, 'virtual': ['heap'], 'sentinels': ['_MISSING'],
+          'backend': {'attr': '_pq', 'type': 'β', 'push': '_push', 'pop': '_pop'},
+          'state': {'heap': 'Heap', '_pq': 'β', 'n': 'Int', '_c': 'Counter', '_anchor': 'Val'}, 'methods': []}
+_HP2 = {'params': {'k': 'κ', 'v': 'ν'}, 'result': 'None', 'raises': True, 'cls': _HBOX2, 'method': True}
+REJECT3B = [
+    ('an item of the backend other than [0]', 'self._anchor = self._pq[1]'),
+    ('the backend used as a value', 'x = self._pq\n        self._anchor = x[0]'),
+    ('next() inside an expression', 'self.n = next(self._c) + 1'),
+    ('next() of something that is not a declared counter', 'self.n = next(self._pq)'),
+    ('the backend pop inside an expression', 'self._anchor = self._pop(self._pq)[0]'),
+    ('the backend push with another container', 'self._push(self._anchor, self._anchor)'),
+    ('unpacking a cell into a statically typed variable', 'self.n, b = self._anchor'),
+    ('len of the backend', 'self.n = len(self._pq)'),
+]
+
+
 def reject_tests3(verbose=True):
     import ast
     bad = []
-    for name, body in REJECT3:
+    for name, body in REJECT3 + REJECT3B:
         src = 'class H(dict):\n    def m(self, k, v):\n        %s\n' % body
         spec = {'module': 'x', 'qualname': 'H.m', 'lean_name': 'H.m', 'kind': 'function', 'tie_theorem': '-', 'py': 'm'}
-        spec.update(_HP)
+        spec.update(_HP2 if (name, body) in REJECT3B else _HP)
         tree = ast.parse(src)
         try:
             fdef = py2lean._find_function(tree, 'H.m')
@@ -2020,7 +2038,7 @@ def reject_tests3(verbose=True):
         except (py2lean.Unsupported, py2lean._Unknown):
             pass
     if verbose:
-        print('subset boundary (heap mode): %d/%d snippets refused' % (len(REJECT3) - len(bad), len(REJECT3)))
+        print('subset boundary (heap mode): %d/%d snippets refused' % (len(REJECT3 + REJECT3B) - len(bad), len(REJECT3 + REJECT3B)))
         for name, text in bad:
             print('ACCEPTED (should be refused): %s\n%s' % (name, text))
     return len(bad)
